@@ -21,12 +21,12 @@ FAMILIES = ('own',)
 NO_SHRINK = ('hashes',)
 RULE = ('each run = one history-machine world (tree + prior Manifest state + rounds of read-only operations '
         '[verify, keep-going verify, lookups, loader updated in memory and discarded] and updates) evaluated '
-        'fault-free, then - for 2 of 3 worlds - re-executed once per filesystem call of the recorded trace '
+        'fault-free, then - for one world in fourteen - re-executed once per filesystem call of the recorded trace '
         '(read side: open/os.open/stat/fstat/scandir/iteration/read; write side: open-for-write, write, unlink) '
         'with an injected OSError at exactly that call; non-trivial = an update ran; distinct = distinct '
         'event-log digest of the fault-free run; the evidence counts faulted executions separately')
-PLAN = {'quick': {'n': 120, 'budget_s': 150, 'block': 3, 'det': 3, 'run_timeout_s': 900},
-        'thorough': {'n': 3000, 'budget_s': 2400, 'block': 6, 'det': 4, 'run_timeout_s': 1800}}
+PLAN = {'quick': {'n': 1200, 'budget_s': 150, 'block': 6, 'det': 3, 'run_timeout_s': 900},
+        'thorough': {'n': 30000, 'budget_s': 2400, 'block': 12, 'det': 4, 'run_timeout_s': 1800}}
 ASSUMPTIONS = ['crash consistency of a half-written Manifest is not part of the property: after a write-side fault only "nothing but Manifest files was touched" is demanded',
                'a file counts as a Manifest file by name (Manifest, Manifest.*)']
 
@@ -55,7 +55,7 @@ def generate(rng, tier, idx):
                 po['hashes'] = rng.choice(GU.HASHSETS)
             pre.append(po)
         r['pre_ops'] = pre
-    sc['enumerate'] = rng.random() < 0.67
+    sc['enumerate'] = rng.random() < 0.07      # (every history is judged fault-free; one in fourteen also gets the fault enumeration)
     sc['errno_pick'] = rng.getrandbits(30)
     sc['per_site'] = 3 if tier == 'thorough' else 1
     return sc
